@@ -12,6 +12,10 @@ Exact ordered-field arithmetic; IEEE rounding (the kernel divides each gap by M 
 sums and divides) is outside the theorem and is what "up to floating-point rounding" in C14 allows.
 -/
 import PymoodeProofs.C13f
+import Mathlib.Tactic.NormNum
+import Mathlib.Tactic.IntervalCases
+import Mathlib.Data.Rat.Defs
+import Mathlib.Algebra.Order.Field.Rat
 
 set_option linter.unusedSectionVars false
 set_option linter.unusedVariables false
@@ -332,6 +336,22 @@ theorem pcd_two_objectives (f : List (List α)) (c : α) (nRemove : Int) (hne : 
   generalize clampRemove nRemove f.length 2 = cl at hcl ⊢
   generalize (List.filter (fun i => !(extremesFirst f 2).contains i) (List.range f.length)).length = d at hlen ⊢
   omega
+
+
+/-- non-vacuity of `pcd_two_objectives` / `pcdKernelF_refines`: a concrete 4-point bi-objective front over ℚ
+meets the hypothesis, so on it the compiled kernel equals the definition for every `n_remove` -/
+example : Front2 ([[0, 3], [1, 2], [2, 1], [3, 0]] : List (List ℚ)) := by
+  intro a b ha hb hab
+  simp only [List.length_cons, List.length_nil] at ha hb
+  interval_cases a <;> interval_cases b <;> simp_all [xAt] <;> norm_num
+
+example (nRemove : Int) :
+    pcdKernelF ([[0, 3], [1, 2], [2, 1], [3, 0]] : List (List ℚ)) 2 2 nRemove =
+      (pcdFallback ([[0, 3], [1, 2], [2, 1], [3, 0]] : List (List ℚ)) 2 2 nRemove, true) := by
+  apply pcd_two_objectives _ 2 nRemove (by simp) (by norm_num)
+  intro a b ha hb hab
+  simp only [List.length_cons, List.length_nil] at ha hb
+  interval_cases a <;> interval_cases b <;> simp_all [xAt] <;> norm_num
 
 end C13
 end Pymoode
